@@ -784,8 +784,13 @@ def try_paths_nonblocking(ctx, rid, classes):
                     okn = any(re.search(a["node"], node or "") for a in tab)
                     if okn:
                         n_int += 1
-                    else:
+                    elif top.rec == cls and v.mutex.startswith("this.") and "." not in v.mutex[5:] and "->" not in v.mutex:
                         viol.append("%s blocks on %s at %s" % (g.name, node, g.loc(st)))
+                    else:
+                        # a lock inside another object (an internal section this table does not know): whether a try form may
+                        # wait for it depends on what runs under it - undecided until it was read and listed
+                        ctx.unknown("%s: %s: %s blocks on %s, which tables/internal_sections.json does not list "
+                                    "(read what runs under it, then list it)" % (rid, g.loc(st), g.name, node))
             ctx.ob(rid, not viol, f.where, "%s::%s cannot wait for the object's mutex" % (cls.split("::")[-1], f.name),
                    "; ".join(viol[:3]), fn=f.label, inst=f.qname)
 
